@@ -199,6 +199,17 @@ def tolerant_anchor(rx):
     return t
 
 
+def let_head_anchor(rx):
+    """binding-head form of an anchor on a `let` statement: `let [mut] NAME = <anything up to the next ;>`.  Used only when the
+    exact and the operator-tolerant forms no longer match, the anchor is the first (only) occurrence (#1) and the head form
+    matches exactly once in the function, so the hint cannot land at a different statement."""
+    m = re.match(r"let (mut )?(\w+) = ", rx)
+    if not m:
+        return None
+    tail = ";" if rx.rstrip().endswith(";") else ""
+    return r"let %s%s = [^;{}]*%s" % (m.group(1) or "", m.group(2), tail)
+
+
 def weave_fn(it, ctx, meta, modpath, in_trait_decl=False):
     """weaves the overlay into one function; when an anchor of the overlay is lost (the function's shape changed), the
     function is emitted as #[verifier::external_body] with its contract only and reported in meta["lost_fns"]:
@@ -421,6 +432,13 @@ def _weave_fn(it, ctx, meta, modpath, in_trait_decl=False, degrade=False):
                 if len(ms) >= k:
                     ctx.log.append({"rule": "anchor", "file": ctx.cur_file, "line": it.line, "fn": key,
                                     "what": "anchor /%s/ matched in its tolerant form /%s/" % (rx, trx)})
+            if len(ms) < k and k == 1:
+                hrx = let_head_anchor(rx)
+                hm = list(re.finditer(hrx, btxt)) if hrx else []
+                if len(hm) == 1:
+                    ms = hm
+                    ctx.log.append({"rule": "anchor", "file": ctx.cur_file, "line": it.line, "fn": key,
+                                    "what": "anchor /%s/ matched in its binding-head form /%s/" % (rx, hrx)})
             if len(ms) < k:
                 raise GenError("lost anchor: /%s/ #%d not found in %s" % (rx, k, key))
             mm = ms[k - 1]
